@@ -111,7 +111,12 @@ func spellAtoms(u string) AURL {
 	return a
 }
 
-const spellRoot = `{"swagger":"2.0","info":{"title":"t","version":"1"},"paths":{},"definitions":{"A":{"$ref":"b1.json#/definitions/B"},"D":{"type":"object","properties":{"c":{"$ref":"sub/c1.json#/definitions/C"}}}}}`
+// The fixture: three documents; A and D leave the root, Node is a local cycle, E and D lie on cycles
+// that come back to the root through another document (by name, and through "..").
+const spellRoot = `{"swagger":"2.0","info":{"title":"t","version":"1"},"paths":{},"definitions":{"A":{"$ref":"b1.json#/definitions/B"},"D":{"type":"object","properties":{"c":{"$ref":"sub/c1.json#/definitions/C"}}},"Node":{"type":"object","properties":{"next":{"$ref":"#/definitions/Node"}}},"E":{"type":"object","properties":{"back":{"$ref":"b1.json#/definitions/Back"}}}}}`
+const spellB1 = `{"definitions":{"B":{"title":"b"},"Back":{"type":"object","properties":{"r":{"$ref":"root.json#/definitions/E"}}}}}`
+const spellC1 = `{"definitions":{"C":{"title":"c","properties":{"up":{"$ref":"../root.json#/definitions/D"}}}}}`
+const spellSchema = `{"allOf":[{"$ref":"b1.json#/definitions/B"},{"$ref":"sub/c1.json#/definitions/C"},{"$ref":"#/definitions/Node"},{"$ref":"#/definitions/E"}]}`
 
 func init() {
 	families["spell"] = &family{
@@ -135,6 +140,12 @@ func init() {
 			cwdPrefix = spellDirs[0]
 			return os.Chdir(filepath.Join(cwdPrefix, "w", "r"))
 		},
+		crashed: func(line []byte, outcome, detail string) interface{} {
+			var sp spelling
+			_ = json.Unmarshal(line, &sp)
+			return &spellObs{Sp: sp, Text: "(the process died on this spelling)", Outcome: outcome, Err: ascii(tail(detail, 400)), API: "any",
+				Loads: []AURL{}, LoadsS: []string{}}
+		},
 		run: func(line []byte, emit func(interface{})) error {
 			var sp spelling
 			if err := json.Unmarshal(line, &sp); err != nil {
@@ -145,7 +156,7 @@ func init() {
 			if err := os.Chdir(filepath.Join(cwdPrefix, "w", "r")); err != nil {
 				return err
 			}
-			for _, api := range []string{"ExpandSpec", "ExpandSchemaWithBasePath"} {
+			for _, api := range []string{"ExpandSpec", "ExpandSchemaWithBasePath", "ExpandParameter", "ExpandResponse"} {
 				emit(runSpell(spellCounter, api, sp))
 			}
 			return nil
@@ -182,9 +193,30 @@ func spellExpand(api, base string, docs map[string]string) (out string, loads []
 		}
 		b, _ := json.Marshal(&sw)
 		return string(b), loads, nil
+	case "ExpandParameter", "ExpandResponse":
+		// these take the location alone and fetch through the package-level loader
+		old := spec.PathLoader
+		spec.PathLoader = loader
+		defer func() { spec.PathLoader = old }()
+		if api == "ExpandParameter" {
+			var pr spec.Parameter
+			_ = json.Unmarshal([]byte(`{"name":"b","in":"body","schema":`+spellSchema+`}`), &pr)
+			if e := spec.ExpandParameter(&pr, base); e != nil {
+				return "", loads, e
+			}
+			b, _ := json.Marshal(&pr)
+			return string(b), loads, nil
+		}
+		var rs spec.Response
+		_ = json.Unmarshal([]byte(`{"description":"d","schema":`+spellSchema+`}`), &rs)
+		if e := spec.ExpandResponse(&rs, base); e != nil {
+			return "", loads, e
+		}
+		b, _ := json.Marshal(&rs)
+		return string(b), loads, nil
 	default:
 		var s spec.Schema
-		_ = json.Unmarshal([]byte(`{"allOf":[{"$ref":"b1.json#/definitions/B"},{"$ref":"sub/c1.json#/definitions/C"}]}`), &s)
+		_ = json.Unmarshal([]byte(spellSchema), &s)
 		if e := spec.ExpandSchemaWithBasePath(&s, nil, opts); e != nil {
 			return "", loads, e
 		}
@@ -204,8 +236,8 @@ func runSpell(id int, api string, sp spelling) (o *spellObs) {
 	dir := canon[:strings.LastIndex(canon, "/")+1]
 	docs := map[string]string{
 		canon:               spellRoot,
-		dir + "b1.json":     `{"definitions":{"B":{"title":"b"}}}`,
-		dir + "sub/c1.json": `{"definitions":{"C":{"title":"c"}}}`,
+		dir + "b1.json":     spellB1,
+		dir + "sub/c1.json": spellC1,
 	}
 	want, _, err := spellExpand(api, canon, docs)
 	if err != nil {
